@@ -86,3 +86,9 @@ M("c10-max-guard-after-handover", "C10", A, "Semaphore.release",
   "        while self._waiters:\n            fut = self._waiters.popleft()\n            if fut.cancelled():\n                continue\n\n            fut.set_result(None)\n            return\n\n        if self._max_value is not None and self._value == self._max_value:\n            raise ValueError(\"semaphore released too many times\")\n\n", ["R10-b"])
 M("c10-backend-semaphore-skips-validation", "C10", A, "Semaphore.__init__", "        super().__init__(initial_value, max_value=max_value)\n        self._value = initial_value", "        self._value = initial_value", ["R10-j"])
 M("c10-release-drops-live-waiter", "C10", A, "Semaphore.release", "            if fut.cancelled():\n                continue\n\n            fut.set_result(None)", "            if fut.cancelled() or fut.done():\n                continue\n\n            fut.set_result(None)", ["R10-b"])
+N("c10-n-validation-restructured", "C10", SYNC, "Semaphore.__init__",
+  "        if initial_value < 0:\n            raise ValueError(\"initial_value must be >= 0\")\n        if max_value is not None:\n            if not isinstance(max_value, int):\n                raise TypeError(\"max_value must be an integer or None\")\n            if max_value < initial_value:",
+  "        if not initial_value >= 0:\n            raise ValueError(\"initial_value must be >= 0\")\n        if max_value is None:\n            pass\n        else:\n            if not isinstance(max_value, int):\n                raise TypeError(\"max_value must be an integer or None\")\n            if initial_value > max_value:")
+N("c10-n-release-guard-spelled-differently", "C10", A, "Semaphore.release",
+  "        if self._max_value is not None and self._value == self._max_value:\n            raise ValueError(\"semaphore released too many times\")",
+  "        if self._max_value is None:\n            pass\n        elif self._max_value == self._value:\n            raise ValueError(\"semaphore released too many times\")")
